@@ -247,7 +247,7 @@ class Unit:
                     buf = []
                 elif first == 'ghost_at':
                     # ghost_at <callee>[#k] before|after : ghost statements next to the k-th statement calling <callee>
-                    m = re.match(r'([\w:]+)(?:#(\d+))?\s+(before|after)$', rest)
+                    m = re.match(r'([\w:.]+)(?:#(\d+))?\s+(before|after|blockend)$', rest)
                     if not m:
                         raise ExtractError('%s:%d: bad ghost_at line' % (self.path, i))
                     section = ('ghost_at', (m.group(1), int(m.group(2) or 1), m.group(3)))
@@ -554,6 +554,22 @@ class Emitter:
                 raise ExtractError('%s: ghost_at %s#%d: the call does not start its statement (anchor lost)' % (fnid, callee, ordinal))
             if where == 'after':
                 edits.append((semi + 1, '\n' + mark(gtxt, fnid + '::proof')))
+            elif where == 'blockend':
+                # before the closing brace of the innermost block that contains the call statement
+                depth, k2, close_at = 0, semi + 1, None
+                while k2 < len(masked):
+                    ch = masked[k2]
+                    if ch == '{':
+                        depth += 1
+                    elif ch == '}':
+                        if depth == 0:
+                            close_at = k2
+                            break
+                        depth -= 1
+                    k2 += 1
+                if close_at is None:
+                    raise ExtractError('%s: ghost_at %s#%d blockend: enclosing block not found (anchor lost)' % (fnid, callee, ordinal))
+                edits.append((close_at, mark(gtxt, fnid + '::proof') + '\n'))
             else:
                 edits.append((start, mark(gtxt, fnid + '::proof') + '\n'))
         if contract.proof_begin:
